@@ -31,7 +31,7 @@ struct OpResult {
   bool instance_left = false;
 };
 
-inline Bytes cstr_seed(const std::string &s) { Bytes b(s.begin(), s.end()); b.push_back(0); b.resize(256, 0); return b; }
+inline Bytes cstr_seed(const std::string &s) { Bytes b(s.begin(), s.end()); b.push_back(0); if (b.size() < 256) b.resize(256, 0); return b; }
 
 // T: worker threads; seed: NUL-terminated, at most 255 characters
 inline OpResult wc_encrypt(const Bytes &P, const unsigned char *key16, int cmode, int hmode, const std::string &seed, int T, const Bytes *preexisting_out = nullptr) {
@@ -118,12 +118,15 @@ static const unsigned char KEYS[4][16] = {
     {0},
     {0xff, 0xff, 0xff, 0xff, 0xff, 0xff, 0xff, 0xff, 0xff, 0xff, 0xff, 0xff, 0xff, 0xff, 0xff, 0xff},
     {0x2b, 0x7e, 0x15, 0x16, 0x28, 0xae, 0xd2, 0xa6, 0xab, 0xf7, 0x15, 0x88, 0x09, 0xcf, 0x4f, 0x3c}};
+static const int NSEEDS = 7;
 inline std::string seed_of(int kind) {
   switch (kind) {
   case 0: return "seed";
-  case 1: return "";
-  case 2: return "a";
-  case 3: return std::string(255, 'x');
+  case 1: return std::string(256, 'y'); // as long as the command line's random buffer (256 bytes, no NUL inside)
+  case 2: return "";
+  case 3: return "a";
+  case 4: return std::string(255, 'x');
+  case 5: return std::string(300, 'z') + "tail";
   default: return "another seed \x01\x02\xff";
   }
 }
